@@ -211,13 +211,13 @@ Definition balancer_ok (c : cfg) (w : world) (rest : list (list Z)) : bool :=
   let idle := fold_left Z.add (map fst us) 0 in
   let inuse := fold_left Z.add (map snd us) 0 in
   let ds := block_disposes rest in
-  let todel := idle - c_max c in
+  let todel := bal_todel idle (c_max c) in
   let shrink_ok :=
     if todel <=? 0 then (match ds with [] => true | _ => false end)
     else
       let '(cur, ok) := fold_left (fun acc d => match acc, d with (cur, ok), (_, n, ret) => (cur - ret, ok && (0 <? cur) && (n =? cur)) end) ds (todel, true) in
       ok && ((cur <=? 0) || (len ds =? len (w_slots w))) && nodupz (map (fun d => fst (fst d)) ds) in
-  let want := if c_tot c <=? idle + inuse then 0 else Z.max 0 (c_min c - idle) in
+  let want := bal_want idle inuse (c_min c) (c_tot c) in
   shrink_ok && (len (block_preheats rest []) =? want).
 
 Fixpoint next_dispose (i : Z) (rest : list (list Z)) : option (Z * Z * Z) :=
@@ -227,6 +227,19 @@ Fixpoint next_dispose (i : Z) (rest : list (list Z)) : option (Z * Z * Z) :=
   | (21 :: j :: n :: ret :: whole :: _) :: t => if j =? i then Some (n, ret, whole) else next_dispose i t
   | _ :: t => next_dispose i t
   end.
+
+(* a metadata read staged to overlap the answer of the slot's outstanding call ([8; i; 1]): the goroutines the sync's
+   Broadcast wakes get the pool's lock only after the factory worker, which was queued on it first, has recorded its answer.
+   The flag (kept among the pre-cancelled ids as -(1000000 + i)) moves the woken workers' silent steps behind that record. *)
+Fixpoint block_has_callend (i : Z) (rest : list (list Z)) : bool :=
+  match rest with
+  | [] => false
+  | (99 :: _) :: _ => false
+  | (12 :: j :: _) :: t => (j =? i) || block_has_callend i t
+  | _ :: t => block_has_callend i t
+  end.
+Definition ovl_flag (i : Z) : Z := - (1000000 + i).
+Definition set_pc (w : world) (pc : list Z) : world := mkW (w_slots w) (w_ok w) (w_why w) pc (w_pre w) (w_out w).
 
 Definition rec_step (c : cfg) (rest : list (list Z)) (w : world) (r : list Z) : world :=
   match r with
@@ -242,6 +255,7 @@ Definition rec_step (c : cfg) (rest : list (list Z)) (w : world) (r : list Z) : 
   | 6 :: _ => if balancer_ok c w rest then w else fail w 60
   | 7 :: i :: fam :: _ :: removed :: _ =>
       if removed =? 0 then w else app w i (LRemoteRemove (if fam =? 6 then F6 else F4) removed) 7
+  | 8 :: i :: 1 :: _ => if block_has_callend i rest then set_pc w (ovl_flag i :: w_pc w) else w
   | 8 :: _ => w
   | 9 :: _ => w          (* a Dispose is armed to race with the next attempt: the Dispose itself is record 21 *)
   | 10 :: rid :: ok :: eni :: a4 :: a6 :: o4 :: o6 :: _ =>
@@ -271,11 +285,18 @@ Definition rec_step (c : cfg) (rest : list (list Z)) (w : world) (r : list Z) : 
   | 12 :: i :: k :: ok :: eff :: code :: eni :: trunk :: prim :: ips =>
       let '(i4, i6) := two_lists ips in
       if k =? 0 then w    (* preload: consumed when the world is built *)
-      else if k =? 1 then app w i (LCreateEnd (dec_bool ok) eni (dec_bool trunk) prim i4 i6 code) 12
-      else if k =? 2 then app w i (LAssignEnd F4 (dec_bool ok) i4 code) 12
-      else if k =? 3 then app w i (LAssignEnd F6 (dec_bool ok) i6 code) 12
-      else if (k =? 4) || (k =? 5) then app w i (LUnassignEnd (fam_of k) (dec_bool ok) (dec_bool eff)) 12
-      else app w i (LDeleteEnd (dec_bool ok) (dec_bool eff)) 12
+      else
+      let w1 :=
+        if k =? 1 then app w i (LCreateEnd (dec_bool ok) eni (dec_bool trunk) prim i4 i6 code) 12
+        else if k =? 2 then app w i (LAssignEnd F4 (dec_bool ok) i4 code) 12
+        else if k =? 3 then app w i (LAssignEnd F6 (dec_bool ok) i6 code) 12
+        else if (k =? 4) || (k =? 5) then app w i (LUnassignEnd (fam_of k) (dec_bool ok) (dec_bool eff)) 12
+        else app w i (LDeleteEnd (dec_bool ok) (dec_bool eff)) 12 in
+      if memz (ovl_flag i) (w_pc w1) then
+        (* the workers woken by the overlapping sync run now *)
+        let w2 := set_pc w1 (remz (ovl_flag i) (w_pc w1)) in
+        match slot_at w2 i with Some s => put_slot w2 i (arm (flush_slot (arm s))) | None => w2 end
+      else w1
   | 14 :: dt :: _ =>
       if dt <? 0 then fail w 14
       else
@@ -301,7 +322,12 @@ Definition rec_step (c : cfg) (rest : list (list Z)) (w : world) (r : list Z) : 
         mkW (map (fun p => tick (fst p) (snd p)) (combine (seq 0 (length (w_slots w1))) (w_slots w1)))
             (w_ok w1) (w_why w1) (w_pc w1) (w_pre w1) (w_out w1)
   | 13 :: i :: ok :: ips =>
-      let '(r4, r6) := two_lists ips in app w i (LMetaSync (dec_bool ok) r4 r6) 13
+      let '(r4, r6) := two_lists ips in
+      if memz (ovl_flag i) (w_pc w) then
+        match slot_at w i with
+        | Some s => match step s (LMetaSync (dec_bool ok) r4 r6) with Some s' => put_slot w i s' | None => fail w 13 end
+        | None => fail w 13 end
+      else app w i (LMetaSync (dec_bool ok) r4 r6) 13
   | 20 :: i :: rid :: pod :: nc :: pin :: erdma :: acc :: reason :: c4 :: c6 :: _ =>
       let w := if attempt_fits w i pod (dec_bool nc) pin (dec_bool erdma) acc reason then w else pull_replies w i rest in
       match slot_at w i with
